@@ -588,3 +588,36 @@ Definition streaming (x : client) : bool :=
   | HSnap _ => false
   | _ => match c_sub x with Some s => match s_pre s with [] => true | _ => false end | None => true end
   end.
+
+(* ------------------------------------------------------------------ schedules from the initial state *)
+
+Definition run (cache_on : bool) (ls : list label) : state := run_from (init cache_on) ls.
+
+(* the environment behaves: Raft indexes grow, query indexes cover the subject's changes ([step_ok]);
+   the events of a commit describe its whole effect on the query results ([events_ok]);
+   a restore finds an empty publish queue and nobody subscribes on a topic buffer that outlived it ([restore_ok]) *)
+Definition env_ok (cache_on : bool) (ls : list label) : Prop :=
+  valid_from (init cache_on) ls = true /\
+  all_from events_ok (init cache_on) ls = true /\
+  all_from restore_ok (init cache_on) ls = true.
+
+(* no snapshot is taken while a committed batch is waiting to be published *)
+Definition gap_free (cache_on : bool) (ls : list label) : Prop :=
+  all_from gapfree_ok (init cache_on) ls = true.
+
+Definition client_of (st : state) (c : N) : option client := find_client c (st_clients st).
+
+(* commits of the current store incarnation with an index above i *)
+Definition log_after (i : N) (log : list batch) : list batch :=
+  filter (fun b => N.ltb i (b_idx b)) log.
+
+(* client c holds a subscription that the server has closed *)
+Definition closed_for (st : state) (c : N) : Prop :=
+  exists x sb, client_of st c = Some x /\ c_sub x = Some sb /\ s_status sb <> Open.
+
+Definition touches_client (c : N) (l : label) : bool :=
+  match l with
+  | LSubscribe c' _ _ _ _ => N.eqb c c'
+  | LUnsub c' => N.eqb c c'
+  | _ => false
+  end.
